@@ -207,6 +207,13 @@ class PluginFilter(object):
         if rv is not None:
             raise RuntimeError("deleteExcludeRegion refused: %r" % (rv,))
 
+    def replace_region(self, reg):
+        data = dict(reg)
+        data["type"] = "RectangularRegion" if reg["type"] == "rect" else "CircularRegion"
+        rv = self.h.api("updateExcludeRegion", data)
+        if rv is not None:
+            raise RuntimeError("updateExcludeRegion refused: %r" % (rv,))
+
 
 def selftest():
     """Checks the harness only (stubs are wired, calls go through); asserts nothing the properties are about."""
